@@ -207,14 +207,21 @@ def run_unit(unit_dir, repo, workdir, rlimit=None, extra_args=None, timeout=900)
     """run the unit; if the only thing in the way of a verdict is the solver's resource limit, retry once with 4x rlimit."""
     r = _run_unit(unit_dir, repo, workdir, rlimit=rlimit, extra_args=extra_args, timeout=timeout)
     if r['status'] == 'undecided' and 'rlimit' in r.get('reason', '').lower():
+        # (a) the search for *further* errors after a first failing assertion is what usually exhausts the limit:
+        #     ask for one error per query; (b) otherwise 4x the limit
+        r1 = _run_unit(unit_dir, repo, workdir, rlimit=rlimit, extra_args=extra_args, timeout=timeout, multiple_errors=1)
+        r1['time_s'] += r['time_s']
+        r1['rlimit_retry'] = 'multiple-errors 1'
+        if r1['status'] != 'undecided':
+            return r1
         r2 = _run_unit(unit_dir, repo, workdir, rlimit=240, extra_args=extra_args, timeout=timeout)
-        r2['time_s'] += r['time_s']
-        r2['rlimit_retry'] = True
+        r2['time_s'] += r1['time_s']
+        r2['rlimit_retry'] = 'rlimit 240'
         return r2
     return r
 
 
-def _run_unit(unit_dir, repo, workdir, rlimit=None, extra_args=None, timeout=900):
+def _run_unit(unit_dir, repo, workdir, rlimit=None, extra_args=None, timeout=900, multiple_errors=8):
     """returns a result dict (see keys below)."""
     name = os.path.basename(unit_dir.rstrip('/'))
     res = {'unit': name, 'engine': 'verus', 'status': 'undecided', 'reason': '', 'obligations': 0,
@@ -250,7 +257,7 @@ def _run_unit(unit_dir, repo, workdir, rlimit=None, extra_args=None, timeout=900
         res['assumptions'].append(l[:160])
     declared = getattr(mod, 'ASSUMPTIONS', [])
     res['declared_assumptions'] = declared
-    cmd = ['verus', path, '--error-format=json', '--output-json', '--time', '--multiple-errors', '8',
+    cmd = ['verus', path, '--error-format=json', '--output-json', '--time', '--multiple-errors', str(multiple_errors),
            '--num-threads', '8']
     margs = list(getattr(mod, 'VERUS_ARGS', []))
     if rlimit and '--rlimit' in margs:
@@ -352,6 +359,12 @@ def _run_unit(unit_dir, repo, workdir, rlimit=None, extra_args=None, timeout=900
     nobl = len(res['named_obligations'])
     res['obligations'] = res['verified_fns'] + vr.get('errors', 0)
     res['discharged'] = res['verified_fns']
+    # a query that ran out of solver resources says nothing about the *other* queries: failures reported with a
+    # solver model in those stay violations
+    soft = [u for u in undec if any(k in u['message'].lower() for k in ('rlimit', 'resource limit'))]
+    if viol and undec and len(soft) == len(undec):
+        res['rlimit_queries'] = [f"{u['function']} @{u['line']}" for u in soft]
+        undec = []
     if undec:
         res['status'] = 'undecided'
         res['reason'] = '; '.join(f"{u['message'][:160]} @{u['line']}" for u in undec[:4])
